@@ -77,6 +77,43 @@ def test_routing():
     expect('routing: reply lost', 'reply-not-carried-back' in mechs(v))
 
 
+def nested_log(client='A', arrive=True, twice=False, event='o'):
+    log = [
+        rec(1, 'call', stim=1, side='user', port='p', event='rel', dir='in', client='A', args=[]),
+        rec(2, 'arrive', True, -1, side='comp', port='p', event='rel', dir='in', args=[], pump=7),
+        rec(3, 'nested', True, -1, **{'in': 'comp/p/rel', 'out': 'p/o'}),
+        rec(4, 'call', True, -1, stim=2, side='comp', port='p', event='o', dir='out', args=[5])]
+    if arrive:
+        log.append(rec(5, 'arrive', True, -1, side='user', port='p', event=event, dir='out',
+                       client=client, args=[5], pump=7))
+        log.append(rec(6, 'arrive_done', True, -1, side='user', port='p', event=event, outs=[], reply=-1))
+    if twice:
+        log.append(rec(6.5, 'arrive', True, -1, side='user', port='p', event=event, dir='out',
+                       client='B', args=[5], pump=7))
+    log += [rec(7, 'return', True, -1, stim=2, outs=[], reply=-1),
+            rec(8, 'arrive_done', True, -1, side='comp', port='p', event='rel', outs=[], reply=-1),
+            rec(9, 'return', stim=1, outs=[], reply=-1)]
+    return log
+
+
+def test_nested():
+    meta = dict(META, mc={'port': 'p', 'claim': 'cl', 'release': 'rel', 'grant': 0})
+    script = 'nest comp/p/rel p/o\ncall p/rel A\n'
+    v, c = tracecheck.check_nested(nested_log(), meta, script)
+    expect('nested: good log silent', not v and c['nested_out_events_raised'] == 1
+           and c['nested_out_events_to_the_claim_holder'] == 1)
+    v, _ = tracecheck.check_nested(nested_log(arrive=False), meta, script)
+    expect('nested: out-event raised while releasing is lost', 'event-not-forwarded' in mechs(v))
+    v, _ = tracecheck.check_nested(nested_log(twice=True), meta, script)
+    expect('nested: delivered twice', 'event-forwarded-more-than-once' in mechs(v))
+    v, _ = tracecheck.check_nested(nested_log(client='B'), meta, script)
+    expect('nested: delivered to another client', 'multiclient-out-event-to-wrong-client' in mechs(v))
+    v, _ = tracecheck.check_nested(nested_log(event='x'), meta, script)
+    expect('nested: misrouted', 'event-misrouted' in mechs(v))
+    v, _ = tracecheck.check_nested([r for r in nested_log() if r['seq'] not in (3, 4, 5, 6, 7)], meta, script)
+    expect('nested: armed but never raised', 'event-not-forwarded' in mechs(v))
+
+
 def test_semantics():
     addr = rec(0, 'addresses', user_pump=7)
     v, c = tracecheck.check_semantics([addr] + good_routing(), META)
@@ -184,7 +221,7 @@ def test_lookup_spec():
 
 
 if __name__ == '__main__':
-    for fn in (test_routing, test_semantics, test_facilities, test_final, test_refcfg, test_textref,
+    for fn in (test_routing, test_nested, test_semantics, test_facilities, test_final, test_refcfg, test_textref,
                test_lookup_spec):
         fn()
     print(f'\n{len(FAILED)} failed' if FAILED else '\nall checker self-tests passed')
